@@ -646,3 +646,60 @@ func ROptCache(c *core.Ctx) {
 		c.Anchor("parser functions that change the option stack")
 	}
 }
+
+// ---------------------------------------------------------------------------
+// R-ATOMFLAGS: the two switches of canBeMadeAtomic.
+//   iterateNullableSubsequent  look past successors that may match nothing
+//   allowLazy                  also answer for lazy loops
+// A lazy loop stops at its minimum when nothing REQUIRED follows; looking past
+// optional successors ("a+?b*" ... end of pattern / end of atomic group) and
+// then turning it into a greedy atomic loop changes what it matches.  So no
+// call may pass both switches as true.  And the helper that finds the last
+// expression of a loop body hands its result to makeLoopAtomic (through
+// eliminateEndingBacktracking), which collapses a lazy loop to its minimum —
+// wrong inside a loop that iterates again — so that helper must not ask for
+// lazy loops.
+// ---------------------------------------------------------------------------
+
+func RAtomFlags(c *core.Ctx) {
+	c.Rule("R-ATOMFLAGS", "every call of canBeMadeAtomic passes constant switches (or its own parameters on), never iterateNullableSubsequent = true together with allowLazy = true; FindLastExpressionInLoopForAutoAtomic passes allowLazy = false because a caller applies makeLoopAtomic to its result without looking at the kind", 4)
+	p := c.P
+	syn := p.Pkg("syntax")
+	info := syn.TypesInfo
+	target := p.LookupFunc("syntax", "RegexNode.canBeMadeAtomic")
+	if target == nil {
+		c.Anchor("syntax.RegexNode.canBeMadeAtomic")
+		return
+	}
+	n := 0
+	for _, fd := range p.FuncDecls(syn) {
+		if fd.Body == nil || p.IsTestFile(fd.Pos()) {
+			continue
+		}
+		name := core.DeclName(syn, fd)
+		for i, call := range core.CallsIn(info, fd.Body, target) {
+			if len(call.Args) != 3 {
+				continue
+			}
+			n++
+			c.Visit(name)
+			val := func(e ast.Expr) string {
+				if tv, ok := info.Types[e]; ok && tv.Value != nil {
+					return tv.Value.String()
+				}
+				return types.ExprString(e)
+			}
+			iter, lazy := val(call.Args[1]), val(call.Args[2])
+			key := fmt.Sprintf("%s / canBeMadeAtomic call #%d does not combine look-past-optional with lazy loops", name, i+1)
+			c.Check(!(iter == "true" && lazy == "true"), key, call.Pos(),
+				"iterateNullableSubsequent and allowLazy are both true: a lazy loop followed only by optional items (a+?b* at the end of the pattern or of an atomic group) is then upgraded to a greedy atomic loop although it has to stop at its minimum")
+			if fd.Name.Name == "FindLastExpressionInLoopForAutoAtomic" {
+				c.Check(lazy == "false", fmt.Sprintf("%s / canBeMadeAtomic call #%d does not ask for lazy loops", name, i+1), call.Pos(),
+					"allowLazy = %s: the node returned here reaches makeLoopAtomic through eliminateEndingBacktracking, which sets a lazy loop's maximum to its minimum; inside a loop body that iterates again ((?:ab??){2}) the lazy loop can then no longer grow", lazy)
+			}
+		}
+	}
+	if n == 0 {
+		c.Anchor("calls of canBeMadeAtomic")
+	}
+}
